@@ -193,7 +193,8 @@ def c03_6(ctx, r):
 
 @rule(P, "C03.7", "T7+T2", "collection is atomic against the runners: a node file is moved under its own lock, append before delete", min_obligations=6)
 def c03_7(ctx, r):
-    from .c08 import c08_1b, c08_3
+    from .c08 import c08_1b, c08_3, node_rows_go_to_node_file
 
     c08_1b(ctx, r)
     c08_3(ctx, r)
+    node_rows_go_to_node_file(ctx, r, "C03.7")
